@@ -105,13 +105,18 @@ func c04Depth(tier string) int {
 	return 2
 }
 
-func c04SweepSize(tier string) int {
+// The sweep enumerates every sequence of c04Depth requests, once without any
+// backend fault and once per position with the first backend call made for
+// the request at that position failing.
+func c04Seqs(tier string) int {
 	n := 1
 	for i := 0; i < c04Depth(tier); i++ {
 		n *= len(c04Alphabet)
 	}
 	return n
 }
+
+func c04SweepSize(tier string) int { return c04Seqs(tier) * (c04Depth(tier) + 1) }
 
 // genRandomReq draws a request over a wider space (5 fids incl. never-bound
 // ones, safe and unsafe names, all request types).
@@ -198,8 +203,11 @@ func runC04(rcx *RunCtx) {
 	var seq []rc.Message
 	nrand := 0
 	sweep := rcx.Index < c04SweepSize(rcx.Tier)
+	faultAt := -1 // position in seq whose first backend call fails
+	faultPct := 0 // random histories: chance per backend call
 	if sweep {
-		k := rcx.Index
+		k := rcx.Index % c04Seqs(rcx.Tier)
+		faultAt = rcx.Index/c04Seqs(rcx.Tier) - 1
 		for d := 0; d < c04Depth(rcx.Tier); d++ {
 			seq = append(seq, c04Alphabet[k%len(c04Alphabet)]())
 			k /= len(c04Alphabet)
@@ -208,6 +216,12 @@ func runC04(rcx *RunCtx) {
 	} else {
 		nrand = 20 + rcx.Plan.Choose(120)
 		rcx.Label = "random"
+		faultPct = []int{0, 0, 5, 20}[rcx.Plan.Choose(4)]
+	}
+	if faultAt >= 0 {
+		rcx.Label = "sweep+backend-error"
+	} else if faultPct > 0 {
+		rcx.Label = "random+backend-errors"
 	}
 	wga := rcx.Plan.Choose(2) == 1
 	ver := 7 - rcx.Plan.Choose(8)
@@ -216,6 +230,20 @@ func runC04(rcx *RunCtx) {
 		fs := simfs.New()
 		fs.WalkGetAttrENOSYS = wga
 		c04Tree(fs)
+		// Backend errors (never on Close/Renamed, which have no reply to carry
+		// them): a request whose backend call fails must fail with that errno
+		// and, clunk and remove apart, leave the session as it was.
+		armed := false
+		fs.FaultFn = func(cl *simfs.Call) *simfs.Fault {
+			if cl.Method == "Close" || cl.Method == "Renamed" {
+				return nil
+			}
+			if armed || (faultPct > 0 && simrt.Pct(faultPct)) {
+				armed = false
+				return &simfs.Fault{Err: injectedErrs[simrt.Choose(len(injectedErrs))]}
+			}
+			return nil
+		}
 		w := NewWorld(nil, fs)
 		c := w.Connect()
 		model := newSessModel()
@@ -246,11 +274,13 @@ func runC04(rcx *RunCtx) {
 		}
 		step(&rc.Tversion{Msize: 8192, Version: versionStr(ver)})
 		step(&rc.Tattach{Fid: 0, Afid: rc.NoFid, Uname: "u", Aname: "", NUname: rc.NoUID})
-		for _, m := range seq {
+		for i, m := range seq {
 			if len(rcx.Findings) > 0 {
 				break
 			}
+			armed = i == faultAt
 			step(m)
+			armed = false
 		}
 		for i := 0; i < nrand && len(rcx.Findings) == 0; i++ {
 			// drawn while the run proceeds, biased towards fids the model has bound
@@ -276,7 +306,7 @@ func runC04(rcx *RunCtx) {
 		w.Shutdown()
 		rcx.Findings = append(rcx.Findings, w.Findings...)
 	})
-	rcx.Sample = map[string]interface{}{"mode": rcx.Label, "version": ver, "walkgetattr_enosys": wga, "history_head": trace, "length": len(seq)}
+	rcx.Sample = map[string]interface{}{"backend_error_at_request": faultAt, "backend_error_pct": faultPct, "mode": rcx.Label, "version": ver, "walkgetattr_enosys": wga, "history_head": trace, "length": len(seq)}
 	finishRun(rcx)
 }
 
@@ -287,7 +317,7 @@ func init() {
 		Run:  runC04,
 		Directed: func(tier string) int { return c04SweepSize(tier) },
 		Quick:    48000, Thorough: 1500000, QuickSecs: 60, ThorSecs: 1500,
-		Rule: fmt.Sprintf("sweep: ALL sequences of depth 2 (quick) / 3 (thorough) over an alphabet of %d request templates (3 fids, tree {dir, file, symlink, fifo, socket}, every request type incl. xattr sub-protocol, auth, R-types) after version+attach; random: 20-140 requests over 5 fid numbers (incl. never-bound), safe and unsafe names, all types. Oracle: executable session model (bound / kind / opened / mode / xattr state per fid) deciding reject-with-errno-set-and-no-backend-call vs forwarded; forwarded replies compared with the backend call log; fid-table probe at the end. Distinct = (mode, schedule fingerprint); the sweep part is exhaustive over its stated bound.", len(c04Alphabet)),
+		Rule: fmt.Sprintf("sweep: ALL sequences of depth 2 (quick) / 3 (thorough) over an alphabet of %d request templates, each once fault-free and once per position with the first backend call of the request at that position failing (errno from a list incl. wrapped and opaque errors) (3 fids, tree {dir, file, symlink, fifo, socket}, every request type incl. xattr sub-protocol, auth, R-types) after version+attach; random: 20-140 requests over 5 fid numbers (incl. never-bound), safe and unsafe names, all types, half of the runs with 5%% or 20%% of backend calls failing. Oracle: executable session model (bound / kind / opened / mode / xattr state per fid) deciding reject-with-errno-set-and-no-backend-call vs forwarded; forwarded replies compared with the backend call log; fid-table probe at the end. Distinct = (mode, schedule fingerprint); the sweep part is exhaustive over its stated bound.", len(c04Alphabet)),
 		Assume: []string{"where the statement allows two errnos both are accepted", "operations other than read/write/clunk on xattr fids, open mode 3, and over-long read counts are generated but only required to be answered"},
 		Real:   []string{"p9.Server", "p9 handlers / fid table", "p9 wire codec"},
 		Stub:   []string{"transport (simnet pipes)", "backend tree (simfs)", "raw 9P peer (refcodec)"},
